@@ -28,7 +28,8 @@ FLOORS = {"layouts": 250, "layouts:invalid-content": 60, "layouts:legacy-name": 
 
 KINDS = {"info": ["composeinfo.json"], "images": ["images.json", "image-manifest.json"], "rpms": ["rpms.json", "rpm-manifest.json"],
          "modules": ["modules.json"]}
-CONTENT = ["valid", "valid", "valid", "valid", "not-json", "empty", "foreign-type", "bad-field", "missing-section"]
+# "bom" / "utf-16": a well-formed document saved in an encoding a plain load() of the file refuses (undecodable for the library)
+CONTENT = ["valid", "valid", "valid", "valid", "not-json", "empty", "foreign-type", "bad-field", "missing-section", "bom", "utf-16"]
 
 
 @st.composite
@@ -74,6 +75,10 @@ def make_text(kind, content, serial):
     text = obj.dumps()
     if content == "valid":
         return text
+    if content == "bom":
+        return b"\xef\xbb\xbf" + text.encode("utf-8")
+    if content == "utf-16":
+        return text.encode("utf-16")
     if content == "not-json":
         return text[:len(text) // 2]
     if content == "empty":
@@ -108,7 +113,7 @@ def populate(root, layout, serial):
             for fname in sorted(locations[loc][kind]):
                 serial += 1
                 text = make_text(kind, locations[loc][kind][fname], serial)
-                with open(os.path.join(mdir, fname), "w") as fo:
+                with open(os.path.join(mdir, fname), "wb" if isinstance(text, bytes) else "w") as fo:
                     fo.write(text)
                 placed[(loc, kind, fname)] = locations[loc][kind][fname]
     for d in layout["extra_dirs"]:
@@ -194,7 +199,7 @@ def probe(tmp, root, locations, layout):
                 # acceptable only if some candidate file really is unusable
                 bad = [f for f, c in candidates.items() if c != "valid"]
                 check(bad, "valid-file-not-loaded", lambda: "%s: valid file(s) %r in %r but access raised %s: %s" % (kind, sorted(candidates), resolved, type(err).__name__, err))
-                if all(c in ("not-json", "empty", "foreign-type", "bad-field") for c in candidates.values()):
+                if all(c in ("not-json", "empty", "foreign-type", "bad-field", "bom", "utf-16") for c in candidates.values()):
                     check(isinstance(err, RuntimeError), "undecodable-file-not-runtimeerror", lambda: "%s: %r raised %s: %s" % (kind, candidates, type(err).__name__, err))
                     check(any(f in str(err) for f in candidates) or "metadata" in str(err), "error-does-not-name-location", lambda: "%s: %s" % (kind, err))
                 continue
